@@ -234,8 +234,9 @@ def run(cfg, ctx):
     from transactron.testing.tick_count import TicksKey
 
     fails, n = [], 0
-    lvls = [logging.DEBUG, logging.WARNING, logging.ERROR]
-    for min_level, regexp in ((logging.DEBUG, ".*"), (logging.WARNING, ".*"), (logging.DEBUG, "^keep")):
+    # every registration order of the three severities: which records were registered before / after the ERROR record must not matter
+    for lvls, (min_level, regexp) in itertools.product(map(list, itertools.permutations([logging.DEBUG, logging.WARNING, logging.ERROR])),
+                                                        ((logging.DEBUG, ".*"), (logging.WARNING, ".*"), (logging.DEBUG, "^keep"))):
         dm = DependencyManager()
         ticks = Signal(64, name="ticks")
         dm.add_dependency(TicksKey(), ticks)
@@ -281,8 +282,8 @@ def run(cfg, ctx):
                 ok = len(captured) == len(exp) and all(c[0] == e[0] and c[1] == e[1] and c[2].endswith(f"rec{e[2]} {(e[3] + 2 * e[2]) % 8}") for c, e in zip(captured, exp))
                 ok = ok and len(errors) == sum(1 for e in exp if e[1] >= logging.ERROR)
                 if not ok:
-                    fails.append({"level": min_level, "regexp": regexp, "triggers": tv, "captured": captured[:6], "expected": exp[:6], "errors": len(errors)})
-    ctx.bounded_result("logging_process.reports_exactly_triggered_records", n, n, fails, rule="every trigger history of 3 records (DEBUG/WARNING/ERROR, two namespaces) over 3 cycles, for 3 (level, namespace) filters",
+                    fails.append({"registration_order": lvls, "level": min_level, "regexp": regexp, "triggers": tv, "captured": captured[:6], "expected": exp[:6], "errors": len(errors)})
+    ctx.bounded_result("logging_process.reports_exactly_triggered_records", n, n, fails, rule="every trigger history of 3 records (DEBUG/WARNING/ERROR in each of the 6 registration orders, two namespaces) over 3 cycles, for 3 (level, namespace) filters",
                        samples=[{"triggers": [5, 0, 7]}], exhaustive=True)
 
 
